@@ -13,7 +13,7 @@ Lsns == 0..MaxLsn
 MCNext ==
   \/ /\ UNCHANGED crashes
      /\ \/ \E k \in DML \cup {"create"} : Begin(k)
-        \/ SharedLock \/ SharedUnlock \/ ExclusiveLock \/ ExclusiveUnlock \/ Recovered
+        \/ SharedLock \/ SharedUnlock \/ Aborted \/ ExclusiveLock \/ ExclusiveUnlock \/ Recovered
         \/ \E p \in Pages, n \in Lsns : Stamp(p, n) \/ WritePage(p, n)
         \/ \E n \in Lsns : LogAppend(n)
         \/ \E ok \in BOOLEAN : Result(ok)
